@@ -857,7 +857,7 @@ func (n cnode) shape() string {
 				hi = f(x.High)
 			}
 			return "(slice " + f(x.X) + " " + lo + " " + hi + ")"
-		case *ast.SelectorExpr, *ast.StarExpr:
+		case *ast.SelectorExpr, *ast.StarExpr, *ast.ArrayType, *ast.FuncLit, *ast.CompositeLit, *ast.TypeAssertExpr:
 			return render(x)
 		}
 		n.p.c.failf("%s: %s: expression form %T not supported by shape()", n.p.c.rel(e.Pos()), n.where, e)
